@@ -68,7 +68,7 @@ theorem phaseOK_mid (m r : List Char) (hm : DotFree m) (hr : DotFree r) (hne : m
     (hH : countH r < countH m) (hmask : dotMask m = dotMask r) :
     PhaseOK (fEq m r) ('.' :: m ++ ['.']) ('.' :: r ++ ['.']) where
   ne := by simp
-  lt := by simp [countH, List.count_cons, List.count_append] at *; exact hH
+  lt := by simp [countH, List.count_append] at *; exact hH
   mask := by simp [dotMask] at *; exact hmask
   step := step_mid m r hm hr
   nf := nf_mid m r hm hne
@@ -81,7 +81,7 @@ theorem phaseOK_pre : PhaseOK (fPre h4 o4) ('.' :: h4) ('.' :: o4) where
   ne := by simp
   lt := by decide
   mask := by decide
-  step := step_pre h4 o4 (by decide) (by decide) (by decide)
+  step := step_pre h4 o4 (by decide) (by decide)
     (by rintro x ⟨t, ht⟩; simp [h4, o4, hRun, List.replicate] at ht)
   nf := nf_pre h4 o4 (by decide) (by decide)
   pres := by
@@ -98,7 +98,7 @@ theorem phaseOK_suf : PhaseOK (fSuf h4 t4) (h4 ++ ['.']) (t4 ++ ['.']) where
   ne := by decide
   lt := by decide
   mask := by decide
-  step := step_suf h4 t4 (by decide) (by decide) (by decide) not_suffix_h4_t4
+  step := step_suf h4 t4 (by decide) (by decide) not_suffix_h4_t4
   nf := nf_suf h4 t4 (by decide) (by decide)
   pres := by
     intro b hb; unfold fSuf; split
